@@ -355,7 +355,31 @@ class Ctx:
     def cleanup(self):
         shutil.rmtree(self.workdir, ignore_errors=True)
 
+    def coqchk(self, coverage):
+        """thorough tier: the independent checker re-checks the compiled property file and everything it depends on,
+        and prints the axioms / unsafe features the whole closure relies on"""
+        vo = os.path.join(COQ, "props", self.prop + ".vo")
+        if not os.path.exists(vo):
+            return
+        with Lock(".coq.lock"):
+            try:
+                rc, out = sh("timeout 3000 coqchk -silent -o -Q . GoUpf GoUpf.props.%s" % self.prop, cwd=COQ, timeout=3100)
+            except subprocess.TimeoutExpired:
+                rc, out = -9, "coqchk timed out"
+        summ = {}
+        for key, pat in (("axioms", r"\* Axioms:(.*?)\n\s*\n"), ("type_in_type", r"type-in-type:(.*?)\n\s*\n"),
+                         ("unsafe_fixpoints", r"unsafe \(co\)fixpoints:(.*?)\n\s*\n"), ("assumed_positivity", r"positivity is assumed:(.*?)\n\s*\n")):
+            m = re.search(pat, out + "\n\n", re.S)
+            summ[key] = " ".join(m.group(1).split()) if m else "?"
+        summ["rc"] = rc
+        coverage["coqchk"] = summ
+        if rc != 0 or any(summ[k] != "<none>" for k in ("axioms", "type_in_type", "unsafe_fixpoints", "assumed_positivity")):
+            self.violation({"property": self.prop, "broken": "coqchk does not accept props/%s.vo and its dependencies as axiom-free: %s"
+                            % (self.prop, summ), "log": out[-1500:]}, no_input=True)
+
     def finish(self, coverage, assumptions):
+        if self.tier == "thorough" and EVIDENCE_DIR == "evidence":
+            self.coqchk(coverage)
         for w in self.known_hits:
             print("KNOWN-FINDING: property=%s %s" % (self.prop, w))
         for p, no_input in self.violations:
